@@ -89,9 +89,9 @@ def extra_pool(rng):
         (["put", f'${k2} = ${k} + 1'], None), (["stats1", "-a", "count,mode", "-f", k, "-g", k2], None), (["count-similar", "-g", f"{k},{k2}"], None),
         (["cat", "-n", "-g", k], None), (["cat", "-n", "-N", "idx"], None), (["case", "-u", "-f", k], None), (["case", "-k", "-u", "-f", f"{k},{k2}"], None), (["case", "-s", "-v", "-f", k], None),
         (["tee", "tee_out.dkvp"], None), (["tee", "-p", "cat > tee_pipe_out.dkvp"], None), (["fill-empty", "-S"], None), (["fill-empty", "-v", "0"], None),
-        (["fill-down", "--all"], None), (["sec2gmt", "-3", k], None), (["sec2gmt", "--millis2gmt", k], None),
+        (["fill-down", "--all"], None), (["sec2gmt", "-3", k], None), (["sec2gmt", "--millis", k], None),
         (["grep", "-i", "pan"], None), (["grep", "-v", "-i", "eks"], None), (["sparsify"], None), (["sparsify", "-s", "X"], None), (["utf8-to-latin1"], None),
-        (["nothing"], None), (["altkv"], None), (["gap", "-n", "2"], None), (["sec2str", k, "%Y-%m-%d"], None), (["json-stringify", "-f", k], None),
+        (["nothing"], None), (["altkv"], None), (["json-stringify", "-f", k], None),
     ]
 
 
